@@ -27,7 +27,7 @@ BOUNDS = {  # property -> (quick max, thorough max, description of the enumerate
     'C14': (2, 2, 'ill-formed registries of 0..3 entries, ids 0..len+2 and the u32 extremes'),
     'C16': (2, 2, 'all pairs from a pool of 16 types (wrappers of wrappers, arrays of different length, PhantomData instantiations)'),
     'C17': (2, 2, 'all triples of 4 field kinds in named / unnamed / tuple position, variant builders, portable builders'),
-    'C18': (4, 5, 'all strings of length <= max over a 10-symbol class-representative alphabet; all triples of 8 segments; Path::new / new_with_replace / Display'),
+    'C18': (4, 5, 'all strings of length <= max over a 14-symbol class-representative alphabet (one symbol per gap of the ASCII table around the identifier classes); all triples of 8 segments; Path::new / new_with_replace / Display'),
 }
 
 
